@@ -16,6 +16,8 @@ def validate_encoded(string):
 
 def validate_decoded(obj):
   if isinstance(obj, list):
+    if not obj:
+      raise gfapy.FormatError("the list is empty")
     for elem in obj:
       if isinstance(elem, gfapy.Line):
         elem = str(elem.name)
